@@ -26,6 +26,7 @@ import (
 	"bytes"
 	"encoding/json"
 	"fmt"
+	"io"
 	"strings"
 
 	"github.com/danos/encoding/rfc7951"
@@ -56,8 +57,10 @@ func decodeValue(val interface{}) (string, error) {
 		} else {
 			return "false", nil
 		}
-	case float64: // Non-empty Leaf containing number of any sort
-		return fmt.Sprintf("%d", int(typeValue)), nil
+	case json.Number: // Non-empty Leaf containing number of any sort
+		return string(typeValue), nil
+	case rfc7951.Number:
+		return string(typeValue), nil
 	case nil: // Empty leaf
 		return "", nil
 	default:
@@ -176,13 +179,25 @@ func unmarshalJSONInternal(
 ) (datanode.DataNode, error) {
 
 	jr := JSONReader{decodedName: sn.Name()}
+	// Numbers are kept as their literal text: going through float64 would
+	// silently alter 64-bit integers and fractions.
 	if enc == RFC7951 {
-		if err := rfc7951.Unmarshal(json_input, &jr.decodedMsg); err != nil {
+		dec := rfc7951.NewDecoder(bytes.NewReader(json_input))
+		dec.UseNumber()
+		if err := dec.Decode(&jr.decodedMsg); err != nil {
 			return nil, err
 		}
+		if _, err := dec.Token(); err != io.EOF {
+			return nil, fmt.Errorf("invalid data after top-level value")
+		}
 	} else {
-		if err := json.Unmarshal(json_input, &jr.decodedMsg); err != nil {
+		dec := json.NewDecoder(bytes.NewReader(json_input))
+		dec.UseNumber()
+		if err := dec.Decode(&jr.decodedMsg); err != nil {
 			return nil, err
+		}
+		if _, err := dec.Token(); err != io.EOF {
+			return nil, fmt.Errorf("invalid data after top-level value")
 		}
 	}
 
